@@ -67,7 +67,7 @@ func runC14(c *core.Ctx) {
 	sort.Strings(names)
 	c.Note("R14a shared types (%d): %s", len(names), strings.Join(names, "; "))
 	c.Stats["shared_types"] = len(names)
-	must := []string{"omniparser.schema", "schemahandler.CreateCtx", "header.Header", "header.ParserSettings", "extensions/omniv21.schemaHandler",
+	must := []string{"schemahandler.CreateCtx", "header.Header", "header.ParserSettings",
 		"extensions/omniv21/transform.Decl", "extensions/omniv21/transform.CustomFuncDecl",
 		"extensions/omniv21/fileformat/edi.FileDecl", "extensions/omniv21/fileformat/edi.SegDecl", "extensions/omniv21/fileformat/edi.Elem",
 		"extensions/omniv21/fileformat/csv.FileDecl", "extensions/omniv21/fileformat/csv.Column",
@@ -83,6 +83,18 @@ func runC14(c *core.Ctx) {
 		}
 		c.Check(found, "R14a-closure", "shared type "+m, 0, "in the computed closure of schema-owned types", "hand-confirmed schema-owned type is missing from the computed closure: the read-only rule would not cover it")
 	}
+
+	// the Schema implementation and a SchemaHandler implementation (unexported names: resolved by role)
+	roleIn := func(how string) bool {
+		for _, h := range shared.named {
+			if h == how {
+				return true
+			}
+		}
+		return false
+	}
+	c.Check(roleIn("Schema implementation"), "R14a-closure", "shared type <Schema implementation>", 0, "in the computed closure", "the Schema implementation is missing from the computed closure")
+	c.Check(roleIn("implements SchemaHandler"), "R14a-closure", "shared type <SchemaHandler implementation>", 0, "in the computed closure", "no SchemaHandler implementation in the computed closure: handler-owned declarations would not be covered")
 
 	// ---------------- R14a / R14b stores in the run set
 	runFns := repoFuncsIn(e.run)
